@@ -1,5 +1,5 @@
 (* C15 property theorems: statements + `exact lemma` only. *)
-From CJ Require Import Common.Base C15.Model C15.Proofs C15.ModelName C15.ProofsName C15.ModelObf C15.ProofsObf C15.ModelAny C15.ProofsAny C15.ModelDns C15.ProofsDns.
+From CJ Require Import Common.Base C15.Model C15.Proofs C15.ModelName C15.ProofsName C15.ModelObf C15.ProofsObf C15.ModelAny C15.ProofsAny C15.ModelDns C15.ProofsDns C15.ModelExch C15.ProofsExch.
 
 Theorem C15_request_format_roundtrip :
   forall p e, add_request_format p = Some e -> remove_request_format e = Some p.
@@ -202,3 +202,42 @@ Theorem C15_dns_write_name_spec :
     cache_inv (w ++ bs) c' /\ forall post, read_name ((w ++ bs) ++ post) (blen w) = Ok (n, blen (w ++ bs)).
 Proof. exact write_name_spec. Qed.
 Print Assumptions C15_dns_write_name_spec.
+
+(* ---- the encrypted request/response exchange (base32 and Noise N abstract: exchange_laws) ---- *)
+(* the responder's callback is given exactly the payload handed to the requester *)
+Theorem C15_dns_exchange_request :
+  forall b32enc b32dec cipher noise_write noise_read cs_encrypt cs_decrypt pub_of,
+    exchange_laws b32enc b32dec cipher noise_write noise_read cs_encrypt cs_decrypt pub_of ->
+    forall rnd k dom id payload qw cs process,
+      requester_query b32enc cipher noise_write rnd (pub_of k) dom id payload = Some (qw, cs) ->
+      fst (responder_handle b32dec cipher noise_read cs_encrypt k dom process qw) = Some payload.
+Proof. exact exchange_request_b. Qed.
+Print Assumptions C15_dns_exchange_request.
+
+(* what the callback returns is what the requester obtains; an answer above the datagram limit is replaced by
+   the responder with an empty body, which the requester can only try to decrypt as the empty string *)
+Theorem C15_dns_exchange_response :
+  forall b32enc b32dec cipher noise_write noise_read cs_encrypt cs_decrypt pub_of,
+    exchange_laws b32enc b32dec cipher noise_write noise_read cs_encrypt cs_decrypt pub_of ->
+    forall rnd k dom id payload qw cs process r,
+      requester_query b32enc cipher noise_write rnd (pub_of k) dom id payload = Some (qw, cs) ->
+      process payload = Some r ->
+      forall rw, snd (responder_handle b32dec cipher noise_read cs_encrypt k dom process qw) = Some rw ->
+        requester_receive cipher cs_decrypt cs dom rw = Some r \/
+        requester_receive cipher cs_decrypt cs dom rw = cs_decrypt cs [].
+Proof. exact exchange_response_b. Qed.
+Print Assumptions C15_dns_exchange_response.
+
+Theorem C15_dns_exchange_roundtrip :
+  forall b32enc b32dec cipher noise_write noise_read cs_encrypt cs_decrypt pub_of,
+    exchange_laws b32enc b32dec cipher noise_write noise_read cs_encrypt cs_decrypt pub_of ->
+    forall rnd k dom id payload qw cs process r,
+      requester_query b32enc cipher noise_write rnd (pub_of k) dom id payload = Some (qw, cs) ->
+      process payload = Some r ->
+      exists nm cs',
+        forall enc fr w, cs_encrypt cs' r = Some enc -> add_response_format enc = Some fr ->
+          wire_message (answer_msg (ok_resp id nm) fr) = Ok w -> blen w <= max_udp_payload ->
+          responder_handle b32dec cipher noise_read cs_encrypt k dom process qw = (Some payload, Some w) /\
+          requester_receive cipher cs_decrypt cs dom w = Some r.
+Proof. exact exchange_response_fits_b. Qed.
+Print Assumptions C15_dns_exchange_roundtrip.
